@@ -43,9 +43,19 @@ def lexWF : Expr → Bool
   | .inUnnest _ e a => lexWF e && lexWF a
   | .sel e n => lexWF e && identOK n
   | .index e _ i => lexWF e && lexWF i
+  | .caseE o c t ws el => lexWFo o && lexWF c && lexWF t && lexWFw ws && lexWFo el
+  | .ifE c t e => lexWF c && lexWF t && lexWF e
+  | .array es => lexWFs es
+  | .cast e ns => lexWF e && (!ns.isEmpty && ns.all identOK)
 def lexWFs : Exprs → Bool
   | .nil => true
   | .cons e es => lexWF e && lexWFs es
+def lexWFw : Whens → Bool
+  | .nil => true
+  | .cons c t ws => lexWF c && lexWF t && lexWFw ws
+def lexWFo : OExpr → Bool
+  | .none => true
+  | .some e => lexWF e
 end
 
 def LexWF (e : Expr) : Prop := lexWF e = true
@@ -120,10 +130,10 @@ theorem lex_parenS {e : Expr} (ih : LexIH e) (p k : Nat) (lk : TokKind) (X : Byt
 
 /-! ## the first byte of a printed expression -/
 
-/-- first bytes of expression texts: a letter or `_`, a digit, `.`, a quote, `@`, a back-quote, `(`, `+`, `-`, `~` -/
+/-- first bytes of expression texts: a letter or `_`, a digit, `.`, a quote, `@`, a back-quote, `(`, `+`, `-`, `~`, `[` -/
 def startOK (c : UInt8) : Bool :=
   isLetter c || isDigit c || c == 46 || c == 34 || c == 39 || c == 64 || c == 96 || c == 40 || c == 43 ||
-    c == 45 || c == 126
+    c == 45 || c == 126 || c == 91
 
 def StartsOK (s : Bytes) : Prop := ∃ c t, s = c :: t ∧ startOK c = true
 
@@ -257,6 +267,11 @@ theorem sqlE_starts : (e : Expr) → lexWF e = true → StartsOK (sqlE e)
     simp only [lexWF, Bool.and_eq_true] at h
     simp only [sqlE, List.append_assoc]
     exact ((sqlE_starts e h.1).parenS _ _).append _
+  | .caseE .., _ => starts_head 67 (by simp [sqlE, show B "CASE " = [67, 65, 83, 69, 32] by decide]) (by decide)
+  | .ifE .., _ => starts_head 73 (by simp [sqlE, show B "IF(" = [73, 70, 40] by decide]) (by decide)
+  | .array .nil, _ => starts_head 91 (by simp [sqlE, B_vals]) (by decide)
+  | .array (.cons _ _), _ => starts_head 91 (by simp [sqlE, B_vals]) (by decide)
+  | .cast .., _ => starts_head 67 (by simp [sqlE, show B "CAST(" = [67, 65, 83, 84, 40] by decide]) (by decide)
 end
 
 /-! ## the constructor cases -/
@@ -534,24 +549,26 @@ theorem lex_between {e lo hi : Expr} (ih : LexIH e) (ihlo : LexIH lo) (ihhi : Le
   obtain ⟨lk6, h6⟩ := lex_parenS ihhi 9 1 (.sym [65, 78, 68]) X dotEnables_kw.2.1 (Or.inl hB)
   exact ⟨_, h1.append (h2.append (h3.append (h4.append (h5.append h6))))⟩
 
-/-- the elements of an IN list after the first: `, e` … in front of the closing parenthesis -/
+/-- the elements of an IN list / array literal after the first: `, e` … in front of the closing `)` / `]` -/
 def LexIHs (es : Exprs) : Prop :=
-  ∀ (lk : TokKind) (X : Bytes), ∃ lk', PRun (sqlEs es ++ 41 :: X) lk false (sqlToksL es) (41 :: X) lk' false
+  ∀ (c : UInt8), c = 41 ∨ c = 93 → ∀ (lk : TokKind) (X : Bytes),
+    ∃ lk', PRun (sqlEs es ++ c :: X) lk false (sqlToksL es) (c :: X) lk' false
 
-theorem sqlEs_folB (es : Exprs) (X : Bytes) : folB (sqlEs es ++ 41 :: X) = true := by
+theorem sqlEs_folB (es : Exprs) {c : UInt8} (hc : c = 41 ∨ c = 93) (X : Bytes) : folB (sqlEs es ++ c :: X) = true := by
   cases es with
-  | nil => simp [sqlEs, folB]
+  | nil => rcases hc with rfl | rfl <;> simp [sqlEs, folB]
   | cons e es => simp [sqlEs, B_vals.2.2.2.2.2.2.2.2.2.2.1, folB]
 
-theorem lex_nil : LexIHs .nil := fun lk X => ⟨lk, by simpa [sqlEs, sqlToksL] using PRun.nil (41 :: X) lk false⟩
+theorem lex_nil : LexIHs .nil :=
+  fun c _ lk X => ⟨lk, by simpa [sqlEs, sqlToksL] using PRun.nil (c :: X) lk false⟩
 
 theorem lex_cons {e : Expr} {es : Exprs} (ih : LexIH e) (ihs : LexIHs es) : LexIHs (.cons e es) := by
-  intro lk X
+  intro c hc lk X
   simp only [sqlEs, sqlToksL, B_vals.2.2.2.2.2.2.2.2.2.2.1, List.append_assoc, List.cons_append, List.nil_append]
   have h1 := prun_single' 44 (by decide) (by decide) kw_tks.2.2.2.2.2.2.2.2.2.2.2.2.2.1 0 lk
-    (32 :: (sqlE e ++ (sqlEs es ++ 41 :: X)))
-  obtain ⟨lk2, h2⟩ := ih 1 (.sym [44]) (sqlEs es ++ 41 :: X) dotEnables_kw.2.2.2.2.2.1 (Or.inl (sqlEs_folB es X))
-  obtain ⟨lk3, h3⟩ := ihs lk2 X
+    (32 :: (sqlE e ++ (sqlEs es ++ c :: X)))
+  obtain ⟨lk2, h2⟩ := ih 1 (.sym [44]) (sqlEs es ++ c :: X) dotEnables_kw.2.2.2.2.2.1 (Or.inl (sqlEs_folB es hc X))
+  obtain ⟨lk3, h3⟩ := ihs c hc lk2 X
   exact ⟨_, h1.append (h2.append h3)⟩
 
 theorem lex_inList {e first : Expr} {more : Exprs} (ih : LexIH e) (ihf : LexIH first) (ihm : LexIHs more)
@@ -567,8 +584,9 @@ theorem lex_inList {e first : Expr} {more : Exprs} (ih : LexIH e) (ihf : LexIH f
   have h3 := prun_kwb [73, 78] kw_vals.2.2.2.2.2.2.2.1 kw_tks.2.2.2.2.2.2.2.1 1 lk2
     (40 :: (sqlE first ++ (sqlEs more ++ 41 :: X)))
   have h4 := prun_single' 40 (by decide) (by decide) tL 1 (.sym [73, 78]) (sqlE first ++ (sqlEs more ++ 41 :: X))
-  obtain ⟨lk5, h5⟩ := ihf 0 (.sym [40]) (sqlEs more ++ 41 :: X) dotEnables_kw.2.2.2.1 (Or.inl (sqlEs_folB more X))
-  obtain ⟨lk6, h6⟩ := ihm lk5 X
+  obtain ⟨lk5, h5⟩ := ihf 0 (.sym [40]) (sqlEs more ++ 41 :: X) dotEnables_kw.2.2.2.1
+    (Or.inl (sqlEs_folB more (Or.inl rfl) X))
+  obtain ⟨lk6, h6⟩ := ihm 41 (Or.inl rfl) lk5 X
   have h7 := prun_single' 41 (by decide) (by decide) tR 0 lk6 X
   exact ⟨_, h1.append (h2.append (h3.append (h4.append (h5.append (h6.append h7)))))⟩
 
@@ -639,6 +657,174 @@ theorem lex_index {e i : Expr} (ih : LexIH e) (ihi : LexIH i) (kw : Option (PosK
     have h7 := prun_single' 93 (by decide) (by decide) tRb 0 (.sym [41]) X
     exact ⟨_, h1.append (h2.append (h3.append (h4.append (h5.append (h6.append h7)))))⟩
 
+/-! ### CASE and IF -/
+
+theorem PRun.cast {R : Bytes} {lk : TokKind} {d : Bool} {l l' : List Tok'} {R' : Bytes} {lk' : TokKind} {d' : Bool}
+    (h : PRun R lk d l R' lk' d') (e : l = l') : PRun R lk d l' R' lk' d' := e ▸ h
+
+theorem case_vals :
+    B "CASE " = [67, 65, 83, 69, 32] ∧ B "WHEN " = [87, 72, 69, 78, 32] ∧ B " THEN " = [32, 84, 72, 69, 78, 32] ∧
+    B " WHEN " = [32, 87, 72, 69, 78, 32] ∧ B "ELSE " = [69, 76, 83, 69, 32] ∧ B "END" = [69, 78, 68] ∧
+    B "IF(" = [73, 70, 40] := by decide
+
+theorem case_kw :
+    kwOK [67, 65, 83, 69] = true ∧ kwOK [87, 72, 69, 78] = true ∧ kwOK [84, 72, 69, 78] = true ∧
+    kwOK [69, 76, 83, 69] = true ∧ kwOK [69, 78, 68] = true ∧ kwOK [73, 70] = true := by decide +kernel
+
+theorem case_tks :
+    symTK [67, 65, 83, 69] = .case_ ∧ symTK [87, 72, 69, 78] = .when_ ∧ symTK [84, 72, 69, 78] = .then_ ∧
+    symTK [69, 76, 83, 69] = .else_ ∧ symTK [69, 78, 68] = .end_ ∧ symTK [73, 70] = .if_ := by decide
+
+theorem case_dot :
+    dotEnables (.sym [67, 65, 83, 69]) = false ∧ dotEnables (.sym [87, 72, 69, 78]) = false ∧
+    dotEnables (.sym [84, 72, 69, 78]) = false ∧ dotEnables (.sym [69, 76, 83, 69]) = false := by decide
+
+/-- one clause ` WHEN c THEN t` (with the blank in front of it), in front of an admissible suffix -/
+theorem lex_whenClause {c t : Expr} (ihc : LexIH c) (iht : LexIH t) (lk : TokKind) (Y : Bytes) (hY : folB Y = true) :
+    ∃ lk', PRun (32 :: 87 :: 72 :: 69 :: 78 :: 32 :: (sqlE c ++ 32 :: 84 :: 72 :: 69 :: 78 :: 32 :: (sqlE t ++ Y))) lk false
+      (T .when_ :: (sqlToks c ++ (T .then_ :: sqlToks t))) Y lk' false := by
+  have h1 := prun_kwb [87, 72, 69, 78] case_kw.2.1 case_tks.2.1 1 lk (sqlE c ++ 32 :: 84 :: 72 :: 69 :: 78 :: 32 :: (sqlE t ++ Y))
+  obtain ⟨lk2, h2⟩ := ihc 1 (.sym [87, 72, 69, 78]) (32 :: 84 :: 72 :: 69 :: 78 :: 32 :: (sqlE t ++ Y)) case_dot.2.1 (Or.inl rfl)
+  have h3 := prun_kwb [84, 72, 69, 78] case_kw.2.2.1 case_tks.2.2.1 1 lk2 (sqlE t ++ Y)
+  obtain ⟨lk4, h4⟩ := iht 1 (.sym [84, 72, 69, 78]) Y case_dot.2.2.1 (Or.inl hY)
+  exact ⟨_, (h1.append (h2.append (h3.append h4))).cast (by simp)⟩
+
+/-- the further WHEN clauses, in front of the blank that `CaseExpr.SQL()` prints after the clauses -/
+def LexIHw (ws : Whens) : Prop :=
+  ∀ (lk : TokKind) (X : Bytes), ∃ lk', PRun (sqlWs ws ++ 32 :: X) lk false (sqlToksW ws) (32 :: X) lk' false
+
+theorem sqlWs_folB (ws : Whens) (X : Bytes) : folB (sqlWs ws ++ 32 :: X) = true := by
+  cases ws with
+  | nil => simp [sqlWs, folB]
+  | cons c t ws => simp [sqlWs, case_vals.2.2.2.1, folB]
+
+theorem lex_wnil : LexIHw .nil := fun lk X => ⟨lk, by simpa [sqlWs, sqlToksW] using PRun.nil (32 :: X) lk false⟩
+
+theorem lex_wcons {c t : Expr} {ws : Whens} (ihc : LexIH c) (iht : LexIH t) (ihw : LexIHw ws) : LexIHw (.cons c t ws) := by
+  intro lk X
+  simp only [sqlWs, sqlToksW, case_vals.2.2.2.1, case_vals.2.2.1, List.append_assoc, List.cons_append, List.nil_append]
+  obtain ⟨lk1, h1⟩ := lex_whenClause ihc iht lk (sqlWs ws ++ 32 :: X) (sqlWs_folB ws X)
+  obtain ⟨lk2, h2⟩ := ihw lk1 X
+  exact ⟨_, (h1.append h2).cast (by simp)⟩
+
+/-- an optional expression -/
+def LexIHo (o : OExpr) : Prop := ∀ e, o = .some e → LexIH e
+
+/-- the operand of CASE (if any) followed by its blank, after `CASE` -/
+theorem lex_caseOperand {o : OExpr} (iho : LexIHo o) (lk : TokKind) (hlk : dotEnables lk = false) (Y : Bytes) :
+    ∃ lk', PRun (32 :: (sqlO [] o ++ Y)) lk false (sqlToksO [] o) (32 :: Y) lk' false ∧ (o = .none → lk' = lk) := by
+  cases o with
+  | none => exact ⟨lk, by simpa [sqlO, sqlToksO] using PRun.nil (32 :: Y) lk false, fun _ => rfl⟩
+  | some e =>
+    obtain ⟨lk1, h1⟩ := iho e rfl 1 lk (32 :: Y) hlk (Or.inl rfl)
+    exact ⟨lk1, by simpa [sqlO, sqlToksO, B_vals.2.2.2.2.2.2.2.1] using h1, fun h => by cases h⟩
+
+/-- the ELSE clause (if any) followed by its blank, then `END` -/
+theorem lex_caseEls {el : OExpr} (ihe : LexIHo el) (lk : TokKind) {X : Bytes}
+    (f1 : headSat isIdentChar X = false) (f2 : headSat isQuote X = false) :
+    ∃ lk', PRun (32 :: (sqlO [69, 76, 83, 69, 32] el ++ 69 :: 78 :: 68 :: X)) lk false
+      (sqlToksO [T .else_] el ++ [T .end_]) X lk' false := by
+  cases el with
+  | none =>
+    have h := prun_kw' [69, 78, 68] case_kw.2.2.2.2.1 case_tks.2.2.2.2.1 1 lk f1 f2
+    exact ⟨_, by simpa [sqlO, sqlToksO] using h⟩
+  | some e =>
+    have h1 := prun_kwb [69, 76, 83, 69] case_kw.2.2.2.1 case_tks.2.2.2.1 1 lk (sqlE e ++ 32 :: 69 :: 78 :: 68 :: X)
+    obtain ⟨lk2, h2⟩ := ihe e rfl 1 (.sym [69, 76, 83, 69]) (32 :: 69 :: 78 :: 68 :: X) case_dot.2.2.2 (Or.inl rfl)
+    have h3 := prun_kw' [69, 78, 68] case_kw.2.2.2.2.1 case_tks.2.2.2.2.1 1 lk2 f1 f2
+    have h := h1.append (h2.append h3)
+    exact ⟨.sym [69, 78, 68], by simpa [sqlO, sqlToksO, B_vals.2.2.2.2.2.2.2.1] using h⟩
+
+theorem lex_caseE {o el : OExpr} {c t : Expr} {ws : Whens} (iho : LexIHo o) (ihc : LexIH c) (iht : LexIH t)
+    (ihw : LexIHw ws) (ihe : LexIHo el) : LexIH (.caseE o c t ws el) := by
+  intro k lk X _ hX
+  obtain ⟨f1, f2⟩ := fol_facts hX.fol
+  obtain ⟨bCase, bWhen, bThen, _, bElse, bEnd, _⟩ := case_vals
+  simp only [sqlE, sqlToks, bCase, bWhen, bThen, bElse, bEnd, B_vals.2.2.2.2.2.2.2.1, List.append_assoc,
+    List.cons_append, List.nil_append]
+  have h1 := prun_kw' [67, 65, 83, 69] case_kw.1 case_tks.1 k lk
+    (X := 32 :: (sqlO [] o ++ (87 :: 72 :: 69 :: 78 :: 32 :: (sqlE c ++ (32 :: 84 :: 72 :: 69 :: 78 :: 32 ::
+      (sqlE t ++ (sqlWs ws ++ (32 :: (sqlO [69, 76, 83, 69, 32] el ++ (69 :: 78 :: 68 :: X))))))))))
+    (blank_follow _).1 (blank_follow _).2
+  obtain ⟨lk2, h2, _⟩ := lex_caseOperand iho (.sym [67, 65, 83, 69]) case_dot.1
+    (87 :: 72 :: 69 :: 78 :: 32 :: (sqlE c ++ (32 :: 84 :: 72 :: 69 :: 78 :: 32 ::
+      (sqlE t ++ (sqlWs ws ++ (32 :: (sqlO [69, 76, 83, 69, 32] el ++ (69 :: 78 :: 68 :: X))))))))
+  obtain ⟨lk3, h3⟩ := lex_whenClause ihc iht lk2
+    (sqlWs ws ++ (32 :: (sqlO [69, 76, 83, 69, 32] el ++ (69 :: 78 :: 68 :: X)))) (sqlWs_folB ws _)
+  obtain ⟨lk4, h4⟩ := ihw lk3 (sqlO [69, 76, 83, 69, 32] el ++ (69 :: 78 :: 68 :: X))
+  obtain ⟨lk5, h5⟩ := lex_caseEls ihe lk4 f1 f2
+  exact ⟨_, (h1.append (h2.append (h3.append (h4.append h5)))).cast (by simp)⟩
+
+theorem lex_ifE {c t e : Expr} (ihc : LexIH c) (iht : LexIH t) (ihe : LexIH e) : LexIH (.ifE c t e) := by
+  intro k lk X _ _
+  obtain ⟨_, _, _, _, _, _, bR, _, _, _, bComma, _⟩ := B_vals
+  obtain ⟨_, _, _, _, _, _, _, _, _, tL, tR, _, _, tC, _⟩ := kw_tks
+  simp only [sqlE, sqlToks, case_vals.2.2.2.2.2.2, bR, bComma, List.append_assoc, List.cons_append, List.nil_append]
+  have h1 := prun_kw' [73, 70] case_kw.2.2.2.2.2 case_tks.2.2.2.2.2 k lk
+    (X := 40 :: (sqlE c ++ (44 :: 32 :: (sqlE t ++ (44 :: 32 :: (sqlE e ++ 41 :: X))))))
+    (by simp only [headSat_cons]; decide) (by simp only [headSat_cons]; decide)
+  have h2 := prun_single' 40 (by decide) (by decide) tL 0 (.sym [73, 70])
+    (sqlE c ++ (44 :: 32 :: (sqlE t ++ (44 :: 32 :: (sqlE e ++ 41 :: X)))))
+  obtain ⟨lk3, h3⟩ := ihc 0 (.sym [40]) (44 :: 32 :: (sqlE t ++ (44 :: 32 :: (sqlE e ++ 41 :: X))))
+    dotEnables_kw.2.2.2.1 (Or.inl rfl)
+  have h4 := prun_single' 44 (by decide) (by decide) tC 0 lk3 (32 :: (sqlE t ++ (44 :: 32 :: (sqlE e ++ 41 :: X))))
+  obtain ⟨lk5, h5⟩ := iht 1 (.sym [44]) (44 :: 32 :: (sqlE e ++ 41 :: X)) dotEnables_kw.2.2.2.2.2.1 (Or.inl rfl)
+  have h6 := prun_single' 44 (by decide) (by decide) tC 0 lk5 (32 :: (sqlE e ++ 41 :: X))
+  obtain ⟨lk7, h7⟩ := ihe 1 (.sym [44]) (41 :: X) dotEnables_kw.2.2.2.2.2.1 (Or.inl rfl)
+  have h8 := prun_single' 41 (by decide) (by decide) tR 0 lk7 X
+  exact ⟨_, (h1.append (h2.append (h3.append (h4.append (h5.append (h6.append (h7.append h8))))))).cast (by simp)⟩
+
+/-! ### CAST -/
+
+theorem cast_vals : B "CAST(" = [67, 65, 83, 84, 40] ∧ B " AS " = [32, 65, 83, 32] := by decide
+
+theorem cast_kw : kwOK [67, 65, 83, 84] = true ∧ kwOK [65, 83] = true := by decide +kernel
+
+theorem cast_tks : symTK [67, 65, 83, 84] = .cast ∧ symTK [65, 83] = .as_ := by decide
+
+theorem lex_cast {e : Expr} (ih : LexIH e) (ns : List Bytes) (hns : (!ns.isEmpty && ns.all identOK) = true) :
+    LexIH (.cast e ns) := by
+  intro k lk X _ _
+  obtain ⟨_, _, _, _, bDot, _, bR, _⟩ := B_vals
+  obtain ⟨_, _, _, _, _, _, _, _, _, tL, tR, _⟩ := kw_tks
+  simp only [Bool.and_eq_true, Bool.not_eq_true', List.isEmpty_eq_false_iff] at hns
+  simp only [sqlE, sqlToks, cast_vals.1, cast_vals.2, bDot, bR, List.append_assoc, List.cons_append, List.nil_append]
+  have h1 := prun_kw' [67, 65, 83, 84] cast_kw.1 cast_tks.1 k lk
+    (X := 40 :: (sqlE e ++ (32 :: 65 :: 83 :: 32 :: (joinBytes [46] (ns.map identSQL) ++ 41 :: X))))
+    (by simp only [headSat_cons]; decide) (by simp only [headSat_cons]; decide)
+  have h2 := prun_single' 40 (by decide) (by decide) tL 0 (.sym [67, 65, 83, 84])
+    (sqlE e ++ (32 :: 65 :: 83 :: 32 :: (joinBytes [46] (ns.map identSQL) ++ 41 :: X)))
+  obtain ⟨lk3, h3⟩ := ih 0 (.sym [40]) (32 :: 65 :: 83 :: 32 :: (joinBytes [46] (ns.map identSQL) ++ 41 :: X))
+    dotEnables_kw.2.2.2.1 (Or.inl rfl)
+  have h4 := prun_kwb [65, 83] cast_kw.2 cast_tks.2 1 lk3 (joinBytes [46] (ns.map identSQL) ++ 41 :: X)
+  have h5 := lex_path_aux ns hns.1 hns.2 1 (.sym [65, 83]) false (41 :: X) (by simp only [headSat_cons]; decide)
+    (by simp only [headSat_cons]; decide)
+  have h6 := prun_single' 41 (by decide) (by decide) tR 0 .ident X
+  exact ⟨_, (h1.append (h2.append (h3.append (h4.append (h5.append h6))))).cast (by simp)⟩
+
+/-! ### array literals -/
+
+theorem lex_arr_nil : LexIH (.array .nil) := by
+  intro k lk X _ _
+  obtain ⟨_, _, _, _, _, _, _, _, bLb, bRb, _⟩ := B_vals
+  obtain ⟨_, _, _, _, _, _, _, _, _, _, _, tLb, tRb, _⟩ := kw_tks
+  simp only [sqlE, sqlToks, bLb, bRb, List.cons_append, List.nil_append]
+  have h1 := prun_single' 91 (by decide) (by decide) tLb k lk (93 :: X)
+  have h2 := prun_single' 93 (by decide) (by decide) tRb 0 (.sym [91]) X
+  exact ⟨_, h1.append h2⟩
+
+theorem lex_arr_cons {e : Expr} {es : Exprs} (ih : LexIH e) (ihs : LexIHs es) : LexIH (.array (.cons e es)) := by
+  intro k lk X _ _
+  obtain ⟨_, _, _, _, _, _, _, _, bLb, bRb, _⟩ := B_vals
+  obtain ⟨_, _, _, _, _, _, _, _, _, _, _, tLb, tRb, _⟩ := kw_tks
+  simp only [sqlE, sqlToks, bLb, bRb, List.append_assoc, List.cons_append, List.nil_append]
+  have h1 := prun_single' 91 (by decide) (by decide) tLb k lk (sqlE e ++ (sqlEs es ++ 93 :: X))
+  obtain ⟨lk2, h2⟩ := ih 0 (.sym [91]) (sqlEs es ++ 93 :: X) dotEnables_kw.2.2.2.2.1
+    (Or.inl (sqlEs_folB es (Or.inr rfl) X))
+  obtain ⟨lk3, h3⟩ := ihs 93 (Or.inr rfl) lk2 X
+  have h4 := prun_single' 93 (by decide) (by decide) tRb 0 lk3 X
+  exact ⟨_, h1.append (h2.append (h3.append h4))⟩
+
 /-! ## the induction -/
 
 mutual
@@ -674,11 +860,35 @@ theorem lex_expr : (e : Expr) → lexWF e = true → LexIH e
   | .index e kw i, h => by
     simp only [lexWF, Bool.and_eq_true] at h
     exact lex_index (lex_expr e h.1) (lex_expr i h.2) kw
+  | .caseE o c t ws el, h => by
+    simp only [lexWF, Bool.and_eq_true] at h
+    exact lex_caseE (lex_expro o h.1.1.1.1) (lex_expr c h.1.1.1.2) (lex_expr t h.1.1.2) (lex_exprw ws h.1.2)
+      (lex_expro el h.2)
+  | .ifE c t e, h => by
+    simp only [lexWF, Bool.and_eq_true] at h
+    exact lex_ifE (lex_expr c h.1.1) (lex_expr t h.1.2) (lex_expr e h.2)
+  | .cast e ns, h => by
+    simp only [lexWF, Bool.and_eq_true] at h
+    exact lex_cast (lex_expr e h.1) ns (by simpa using h.2)
+  | .array .nil, _ => lex_arr_nil
+  | .array (.cons e es), h => by
+    simp only [lexWF, lexWFs, Bool.and_eq_true] at h
+    exact lex_arr_cons (lex_expr e h.1) (lex_exprs es h.2)
 theorem lex_exprs : (es : Exprs) → lexWFs es = true → LexIHs es
   | .nil, _ => lex_nil
   | .cons e es, h => by
     simp only [lexWFs, Bool.and_eq_true] at h
     exact lex_cons (lex_expr e h.1) (lex_exprs es h.2)
+theorem lex_exprw : (ws : Whens) → lexWFw ws = true → LexIHw ws
+  | .nil, _ => lex_wnil
+  | .cons c t ws, h => by
+    simp only [lexWFw, Bool.and_eq_true] at h
+    exact lex_wcons (lex_expr c h.1.1) (lex_expr t h.1.2) (lex_exprw ws h.2)
+theorem lex_expro : (o : OExpr) → lexWFo o = true → LexIHo o
+  | .none, _ => fun _ h => by cases h
+  | .some e, h => fun e' h' => by
+    cases h'
+    exact lex_expr e (by simpa [lexWFo] using h)
 end
 
 /-! ## the printed text lexes to the printer's tokens -/
@@ -803,6 +1013,35 @@ theorem lexWF_of_yield : (e : Expr) → (∀ x ∈ yield e, tokWF x = true) → 
     simp only [lexWF, Bool.and_eq_true]
     exact ⟨lexWF_of_yield e (fun x hx => h x (by simp [yield, hx])) hn.1.1,
       lexWF_of_yield i (fun x hx => h x (by simp [yield, hx])) hn.1.2⟩
+  | .caseE o c t ws el, h, hn => by
+    simp only [nf, Bool.and_eq_true] at hn
+    simp only [lexWF, Bool.and_eq_true]
+    exact ⟨⟨⟨⟨lexWFo_of_yieldO [] o (fun x hx => h x (by simp [yield, hx])) hn.1.1.1.1,
+      lexWF_of_yield c (fun x hx => h x (by simp [yield, hx])) hn.1.1.1.2⟩,
+      lexWF_of_yield t (fun x hx => h x (by simp [yield, hx])) hn.1.1.2⟩,
+      lexWFw_of_yieldW ws (fun x hx => h x (by simp [yield, hx])) hn.1.2⟩,
+      lexWFo_of_yieldO [T .else_] el (fun x hx => h x (by simp [yield, hx])) hn.2⟩
+  | .ifE c t e, h, hn => by
+    simp only [nf, Bool.and_eq_true] at hn
+    simp only [lexWF, Bool.and_eq_true]
+    exact ⟨⟨lexWF_of_yield c (fun x hx => h x (by simp [yield, hx])) hn.1.1,
+      lexWF_of_yield t (fun x hx => h x (by simp [yield, hx])) hn.1.2⟩,
+      lexWF_of_yield e (fun x hx => h x (by simp [yield, hx])) hn.2⟩
+  | .cast e ns, h, hn => by
+    simp only [nf, Bool.and_eq_true] at hn
+    simp only [lexWF, Bool.and_eq_true, Bool.not_eq_true', List.isEmpty_eq_false_iff, List.all_eq_true]
+    refine ⟨lexWF_of_yield e (fun x hx => h x (by simp [yield, hx])) hn.1, ?_, fun n hm => ?_⟩
+    · intro h0; subst h0; simp [nfT] at hn
+    · have hne : ns ≠ [] := by intro h0; subst h0; cases hm
+      simpa [tokWF] using h ⟨.ident, n⟩ (by
+        simp only [yield, List.mem_cons, List.mem_append]
+        exact Or.inr (Or.inr (Or.inr (Or.inr (Or.inl (mem_pathToks ns n hm))))))
+  | .array .nil, _, _ => rfl
+  | .array (.cons e es), h, hn => by
+    simp only [nf, nfs, Bool.and_eq_true] at hn
+    simp only [lexWF, lexWFs, Bool.and_eq_true]
+    exact ⟨lexWF_of_yield e (fun x hx => h x (by simp [yield, hx])) hn.1,
+      lexWFs_of_yields es (fun x hx => h x (by simp [yield, hx])) hn.2⟩
 theorem lexWFs_of_yields : (es : Exprs) → (∀ x ∈ yields es, tokWF x = true) → nfs es = true → lexWFs es = true
   | .nil, _, _ => rfl
   | .cons e es, h, hn => by
@@ -810,6 +1049,21 @@ theorem lexWFs_of_yields : (es : Exprs) → (∀ x ∈ yields es, tokWF x = true
     simp only [lexWFs, Bool.and_eq_true]
     exact ⟨lexWF_of_yield e (fun x hx => h x (by simp [yields, hx])) hn.1,
       lexWFs_of_yields es (fun x hx => h x (by simp [yields, hx])) hn.2⟩
+theorem lexWFw_of_yieldW : (ws : Whens) → (∀ x ∈ yieldW ws, tokWF x = true) → nfw ws = true → lexWFw ws = true
+  | .nil, _, _ => rfl
+  | .cons c t ws, h, hn => by
+    simp only [nfw, Bool.and_eq_true] at hn
+    simp only [lexWFw, Bool.and_eq_true]
+    exact ⟨⟨lexWF_of_yield c (fun x hx => h x (by simp [yieldW, hx])) hn.1.1,
+      lexWF_of_yield t (fun x hx => h x (by simp [yieldW, hx])) hn.1.2⟩,
+      lexWFw_of_yieldW ws (fun x hx => h x (by simp [yieldW, hx])) hn.2⟩
+theorem lexWFo_of_yieldO (pre : List Tok') : (o : OExpr) → (∀ x ∈ yieldO pre o, tokWF x = true) → nfo o = true →
+    lexWFo o = true
+  | .none, _, _ => rfl
+  | .some e, h, hn => by
+    simp only [nfo] at hn
+    simp only [lexWFo]
+    exact lexWF_of_yield e (fun x hx => h x (by simp [yieldO, hx])) hn
 end
 
 /-- **Parser-built trees have lexer-producible leaves.** -/
@@ -919,12 +1173,46 @@ theorem yield_canonKw : (e : Expr) → nf e = true → CanonL (yield (canonKw e)
     simp only [canonKw, yield]
     exact (yield_canonKw e h.1.1).append (canonL_cons _ (.cons (Or.inr ⟨k, rfl, rfl, h.2⟩)
       (canonL_cons _ ((yield_canonKw i h.1.2).append (canonL_refl _)))))
+  | .caseE o c t ws el, h => by
+    simp only [nf, Bool.and_eq_true] at h
+    simp only [canonKw, yield]
+    exact canonL_cons _ ((yieldO_canonKwO [] o h.1.1.1.1).append (canonL_cons _ ((yield_canonKw c h.1.1.1.2).append
+      (canonL_cons _ ((yield_canonKw t h.1.1.2).append ((yieldW_canonKwW ws h.1.2).append
+        ((yieldO_canonKwO [T .else_] el h.2).append (canonL_refl _))))))))
+  | .ifE c t e, h => by
+    simp only [nf, Bool.and_eq_true] at h
+    simp only [canonKw, yield]
+    exact canonL_cons _ (canonL_cons _ ((yield_canonKw c h.1.1).append (canonL_cons _ ((yield_canonKw t h.1.2).append
+      (canonL_cons _ ((yield_canonKw e h.2).append (canonL_refl _)))))))
+  | .cast e ns, h => by
+    simp only [nf, Bool.and_eq_true] at h
+    simp only [canonKw, yield]
+    exact canonL_cons _ (canonL_cons _ ((yield_canonKw e h.1).append (canonL_refl _)))
+  | .array .nil, _ => canonL_refl _
+  | .array (.cons e es), h => by
+    simp only [nf, nfs, Bool.and_eq_true] at h
+    simp only [canonKw, canonKwL, yield]
+    exact canonL_cons _ ((yield_canonKw e h.1).append ((yields_canonKwL es h.2).append (canonL_refl _)))
 theorem yields_canonKwL : (m : Exprs) → nfs m = true → CanonL (yields (canonKwL m)) (yields m)
   | .nil, _ => canonL_refl _
   | .cons e es, h => by
     simp only [nfs, Bool.and_eq_true] at h
     simp only [canonKwL, yields]
     exact canonL_cons _ ((yield_canonKw e h.1).append (yields_canonKwL es h.2))
+theorem yieldW_canonKwW : (ws : Whens) → nfw ws = true → CanonL (yieldW (canonKwW ws)) (yieldW ws)
+  | .nil, _ => canonL_refl _
+  | .cons c t ws, h => by
+    simp only [nfw, Bool.and_eq_true] at h
+    simp only [canonKwW, yieldW]
+    exact canonL_cons _ ((yield_canonKw c h.1.1).append (canonL_cons _ ((yield_canonKw t h.1.2).append
+      (yieldW_canonKwW ws h.2))))
+theorem yieldO_canonKwO (pre : List Tok') : (o : OExpr) → nfo o = true →
+    CanonL (yieldO pre (canonKwO o)) (yieldO pre o)
+  | .none, _ => canonL_refl _
+  | .some e, h => by
+    simp only [nfo] at h
+    simp only [canonKwO, yieldO]
+    exact (canonL_refl _).append (yield_canonKw e h)
 end
 
 /-- the token-wise normalisation under which printing is lossless: an identifier that reads as a position keyword
@@ -982,9 +1270,21 @@ theorem sqlE_canonKw : (e : Expr) → sqlE (canonKw e) = sqlE e
   | .sel e _ => by simp only [canonKw, sqlE, parenS_canonKw (sqlE_canonKw e), isIntLit_canonKw]
   | .index e none i => by simp only [canonKw, sqlE, parenS_canonKw (sqlE_canonKw e), sqlE_canonKw i]
   | .index e (some (k, sp)) i => by simp only [canonKw, sqlE, parenS_canonKw (sqlE_canonKw e), sqlE_canonKw i]
+  | .caseE o c t ws el => by
+    simp only [canonKw, sqlE, sqlO_canonKwO _ o, sqlE_canonKw c, sqlE_canonKw t, sqlWs_canonKwW ws, sqlO_canonKwO _ el]
+  | .ifE c t e => by simp only [canonKw, sqlE, sqlE_canonKw c, sqlE_canonKw t, sqlE_canonKw e]
+  | .array .nil => by simp [canonKw, canonKwL]
+  | .array (.cons e es) => by simp only [canonKw, canonKwL, sqlE, sqlE_canonKw e, sqlEs_canonKwL es]
+  | .cast e ns => by simp only [canonKw, sqlE, sqlE_canonKw e]
 theorem sqlEs_canonKwL : (m : Exprs) → sqlEs (canonKwL m) = sqlEs m
   | .nil => by simp [canonKwL]
   | .cons e es => by simp only [canonKwL, sqlEs, sqlE_canonKw e, sqlEs_canonKwL es]
+theorem sqlWs_canonKwW : (ws : Whens) → sqlWs (canonKwW ws) = sqlWs ws
+  | .nil => by simp [canonKwW]
+  | .cons c t ws => by simp only [canonKwW, sqlWs, sqlE_canonKw c, sqlE_canonKw t, sqlWs_canonKwW ws]
+theorem sqlO_canonKwO (pre : Bytes) : (o : OExpr) → sqlO pre (canonKwO o) = sqlO pre o
+  | .none => by simp [canonKwO]
+  | .some e => by simp only [canonKwO, sqlO, sqlE_canonKw e]
 end
 
 /-! ## the byte-level round trip -/
